@@ -366,14 +366,18 @@ fn field_type(kind: i64, elem: i64, count: usize, i: usize) -> T {
 pub fn t_layout(a: &[i64]) -> Val {
     let ps = a[0] as usize;
     let n = a[1] as usize;
+    // a[6]: 0 = not packed; 1 = `packed` written after size / align; 2 = `packed` written before them
     let mut attrs: Vec<A> = vec![];
+    if a[6] == 2 {
+        attrs.push(A::packed());
+    }
     if a[2] != 0 {
         attrs.push(A::integer_fn("size", a[3] as isize));
     }
     if a[4] != 0 {
         attrs.push(A::integer_fn("align", a[5] as isize));
     }
-    if a[6] != 0 {
+    if a[6] != 0 && a[6] != 2 {
         attrs.push(A::packed());
     }
     let mut stmts: Vec<TS> = vec![];
@@ -702,13 +706,18 @@ pub fn t_names(a: &[i64]) -> Val {
 //     pub type V { vftable { [v_doc] [pub] fn v(&self); } }
 //     [e_doc] [pub] enum E: u32 [copyable] [cloneable] [defaultable] { A, [#[default]] B }     (the marker is there iff defaultable)
 // a = [ps, t_vis, fa_vis, fb_vis, g_vis, t_copyable, t_cloneable, t_defaultable, t_packed, t_doc, fa_doc, g_doc,
-//      e_vis, e_copyable, e_cloneable, e_defaultable, e_doc, v_vis, v_doc, m_doc, d_base_vis]            (*_doc: number of doc lines, 0..2)
+//      e_vis, e_copyable, e_cloneable, e_defaultable, e_doc, v_vis, v_doc, m_doc, d_base_vis]            (*_doc: number of doc lines, 0..2; 3 = three lines with an empty middle line)
 //     pub type D { #[base] [pub] t: T }
 fn doc_attrs(what: &str, n: i64) -> Vec<A> {
     let mut out = vec![];
     let mut i = 0;
-    while i < n && i < 2 {
-        out.push(A::doc(&format!(" {} doc {}", what, i)));
+    // n == 3: three lines, the middle one empty (`///` on its own between two paragraphs)
+    while i < n && i < 3 {
+        if n == 3 && i == 1 {
+            out.push(A::doc(""));
+        } else {
+            out.push(A::doc(&format!(" {} doc {}", what, i)));
+        }
         i += 1;
     }
     out
@@ -1563,7 +1572,7 @@ pub fn t_equiv(a: &[i64]) -> Val {
 //   n: extern S (size sn);  m: use n;  type R { f: S, p: *const R }  [vftable on R]  enum K: u32
 //   u: not imported by m or n.  It declares, per flag: a type named R (colliding short name), a type named S of another size,
 //      a type with a vftable named like R's table (RVftable), an enum K, and it may import m.
-// a = [ps, sn, r_vft, u_R, u_S, u_S_size, u_RVftable, u_K, u_uses_m, u_first, u_impl_R, type_import, u_refs_private]
+// a = [ps, sn, r_vft, u_R, u_S, u_S_size, u_RVftable, u_K, u_uses_m, u_first, u_impl_R, type_import, u_refs_private, u_path]
 pub fn t_unrelated(a: &[i64]) -> Val {
     let ps = a[0] as usize;
     let mn = M::new().with_extern_types([(
@@ -1638,16 +1647,25 @@ pub fn t_unrelated(a: &[i64]) -> Val {
             [F::new((V::Public, "from_u"), [Ar::ConstSelf]).with_attributes([A::integer_fn("address", 4096)])],
         )]);
     }
+    // a[13]: where the unrelated module lives: 0 = top-level `u`; 1 = `m::sub`, 2 = `n::sub` (a nested module of m / of the module m
+    // imports; neither m nor n imports it, so a name it declares is not in their scope)
+    let u_path: &str = if a.len() > 13 && a[13] == 1 {
+        "m::sub"
+    } else if a.len() > 13 && a[13] == 2 {
+        "n::sub"
+    } else {
+        "u"
+    };
     let run = |with_u: bool| -> Val {
         let mut st = SemanticState::new(ps);
         let mut mods: Vec<(&M, &str)> = vec![];
         if with_u && a[9] != 0 {
-            mods.push((&mu, "u"));
+            mods.push((&mu, u_path));
         }
         mods.push((&mm, "m"));
         mods.push((if with_u && n_gains_s2 { &mn2 } else { &mn }, "n"));
         if with_u && a[9] == 0 {
-            mods.push((&mu, "u"));
+            mods.push((&mu, u_path));
         }
         for (m, p) in mods {
             if let Err(e) = st.add_module(m, &IP::from(p)) {
